@@ -15,6 +15,8 @@ PROP = dict(
               # between the ballot model (Model/Vote, Model/Assorter) and the overstatement model's Mvr
               "Shangrla.RiskLimit.mvrAssort_mvrOf", "Shangrla.RiskLimit.mvrA_ballots",
               "Shangrla.RiskLimit.sum_mvrA_ballots", "Shangrla.RiskLimit.length_mvrA_ballots",
+              "Shangrla.RiskLimit.marks_foundBallots", "Shangrla.RiskLimit.valid_foundBallots",
+              "Shangrla.RiskLimit.wvalid_foundBallots",
               "Shangrla.RiskLimit.plurality_comparison_null_iff", "Shangrla.RiskLimit.plurality_comparison_null",
               "Shangrla.RiskLimit.supermajority_comparison_null_iff", "Shangrla.RiskLimit.supermajority_comparison_null",
               "Shangrla.RiskLimit.comparison_full_data", "Shangrla.RiskLimit.comparison_full_risk_limit_cards",
